@@ -271,6 +271,13 @@ func (e *Exec) valEq(s *State, x, y Value, t types.Type) *Term {
 			panic(unsupported("ptr eq non-ptr"))
 		}
 		bothNil := c.And(a.Nil, b.Nil)
+		if a.ID != nil && b.ID != nil {
+			return c.Or(bothNil, c.And(c.Not(a.Nil), c.Not(b.Nil), c.Eq(a.ID, b.ID)))
+		}
+		if (a.ID != nil || b.ID != nil) && !(a.Nil.Const && a.Nil.B) && !(b.Nil.Const && b.Nil.B) {
+			// one side is known by identity only (loaded from an array of pointers): equality is unknown
+			return c.Or(bothNil, c.And(c.Not(a.Nil), c.Not(b.Nil), c.Fresh("ptreq", SBool)))
+		}
 		if a.Ref != nil && b.Ref != nil {
 			same := a.Ref.Obj == b.Ref.Obj && len(a.Ref.Path) == len(b.Ref.Path)
 			var idxEq []*Term
